@@ -271,7 +271,10 @@ PROPS = {
     "C14f": dict(pkg="./fullrt", test="TestVerifC14f", model="C14", verdict="C14v", level="other", diff_is_failure=False, stateless=True,
                  accept=lambda m, o: m == "-" or m == o, rule="Close of the accelerated client with operations in flight; NewFullRT failing in the provider manager option", trusted=[], shards={"quick": 4, "thorough": 8}),
     "C14p": dict(pkg="./provider", test="TestVerifC14p", model="C14", verdict="C14v", level="other", diff_is_failure=False, stateless=True,
-                 accept=lambda m, o: m == "-" or m == o, rule="Close of the sweeping provider / buffered wrapper when idle, mid-cycle, with sends hanging, and offline", trusted=[], shards={"quick": 4, "thorough": 8}),
+                 accept=lambda m, o: m == "-" or m == o, rule="Close of the sweeping provider / buffered wrapper when idle, mid-cycle, with sends hanging (few or many recipients, 1-2 connections per worker), and offline", trusted=[], shards={"quick": 4, "thorough": 8},
+                 # a Close that hangs behind a sync.Once cannot be seen by the bubble (a goroutine parked on a mutex is not durably
+                 # blocked): the run is then cut short and reported as a crash with the case that was executing
+                 timeout={"quick": 120, "thorough": 900}),
     "C08": dict(
         pkg=".", test="TestVerifC08", model="C08", verdict="C08v", level="proof", diff_is_failure=True, also=["C15", "C03"],
         accept=lambda m, o: m == "-" or m == "pseq=*" or (" " + m + " ") in (" " + o + " "),
